@@ -1,0 +1,17 @@
+//go:build verif
+
+// Contracts for package regattapb (hand-written extensions only; comment-only, build tag "verif").
+// Properties C02, C10, C16.
+
+package regattapb
+
+// IsReadonly: true exactly when every operation of BOTH branches is a range read (an operation with
+// an empty oneof is not a range read).
+//@ func (*TxnRequest).IsReadonly
+//@   requires req != nil && (forall j int :: 0 <= j && j < len(req.Success) ==> req.Success[j] != nil) && (forall j int :: 0 <= j && j < len(req.Failure) ==> req.Failure[j] != nil)
+//@   ensures [C02.readonly.all+C10+C16]  result ==> (forall j int :: 0 <= j && j < len(req.Success) ==> typeIs(req.Success[j].Request, *RequestOp_RequestRange)) && (forall j int :: 0 <= j && j < len(req.Failure) ==> typeIs(req.Failure[j].Request, *RequestOp_RequestRange))
+//@   ensures [C02.readonly.some+C10+C16] !result ==> (exists j int :: 0 <= j && j < len(req.Success) && !typeIs(req.Success[j].Request, *RequestOp_RequestRange)) || (exists j int :: 0 <= j && j < len(req.Failure) && !typeIs(req.Failure[j].Request, *RequestOp_RequestRange))
+//@   modifies nothing
+//@   loop 0 invariant -1 <= rangeindex && rangeindex < len(req.Success) && forall j int :: 0 <= j && j <= rangeindex ==> typeIs(req.Success[j].Request, *RequestOp_RequestRange)
+//@   loop 1 invariant (forall j int :: 0 <= j && j < len(req.Success) ==> typeIs(req.Success[j].Request, *RequestOp_RequestRange))
+//@   loop 1 invariant -1 <= rangeindex && rangeindex < len(req.Failure) && forall j int :: 0 <= j && j <= rangeindex ==> typeIs(req.Failure[j].Request, *RequestOp_RequestRange)
